@@ -19,9 +19,9 @@ RULE = (
 )
 ASSUMPTIONS = ["line-level comparison: the generated fixes never add or remove lines (LT01/CP01 only)"]
 TIMEOUT = {"quick": 900, "thorough": 1800}
-MIN_NONTRIVIAL = {"quick": 40, "thorough": 500}
+MIN_NONTRIVIAL = {"quick": 40, "thorough": 300}
 REQUIRED_COUNTERS = ["clean_lines_compared", "files_fixed"]
-N = 2400
+N = 1000
 ENC = ["utf-8", "utf-8-sig", "utf-16", "latin-1", "cp1252"]
 CLEAN = ["select a from t;", "select 'café' as a from t;", "select a from t; -- naïve ünïcode", "select 'x' as b from u; /* ß */", "select a from t where b = 'Ωμέγα';", "select 1 from t; -- 日本語"]
 FIXABLE = ["SELECT a,b from t;", "select a,b from t where c in (1,2);", "SELECT 'é' as a,b from t;", "select  a from t; -- trailing ü",
